@@ -161,6 +161,52 @@ def shouldDelayedPacketPropAggDelay (sq : SimQueue) (isClient : Bool) (pkt : Sim
 
 /-! ### sim_network_stack -/
 
+/-- the PaddingSent arm of `sim_network_stack`: replace a queued normal packet or queue a
+    padding TunnelSent -/
+def netPaddingSent (next : SimEvent) (sq : SimQueue) (stateBypassable : Bool) (net : Bottleneck) (now : Int) :
+    Except SimFault (SimQueue × Bottleneck) :=
+  let queueUp : Except SimFault (SimQueue × Bottleneck) :=
+    .ok (sq.pushSim ⟨.tunnelSent, next.time, next.client, true, next.bypass, next.replace⟩, net)
+  if next.replace then
+    match sq.peekBlocking stateBypassable next.client with
+    | (some queued, qid) =>
+      if queued.client == next.client && queued.event == .tunnelSent && !queued.containsPadding then
+        if !next.bypass then
+          .ok (sq, { net with ghost := { net.ghost with replaced := net.ghost.replaced + 1 } })
+        else do
+          let r ← sq.popBlocking qid stateBypassable next.client (net.agg next.client)
+          match r with
+          | none => .error (.unwrapNone 4)
+          | some (entry, sq) =>
+            let entry := { entry with bypass := true, replace := false }
+            let net := { net with ghost := { net.ghost with replacedBypass := net.ghost.replacedBypass + 1 } }
+            let net ← match aggDelayOnPaddingBypassReplace sq next.client now entry (net.agg next.client) with
+              | some bd => net.pushAggregateDelay bd now next.client
+              | none => pure net
+            pure (sq.pushSim entry, net)
+      else queueUp
+    | (none, _) => queueUp
+  else queueUp
+
+/-- the TunnelSent arm of `sim_network_stack`: sample the network, maybe queue an aggregate
+    delay, queue the TunnelRecv at the other side -/
+def netTunnelSent (next : SimEvent) (sq : SimQueue) (net : Bottleneck) (now : Int) :
+    Except SimFault (SimQueue × Bottleneck) := do
+  let ((networkDelay, baseline), net) ← net.sample now next.client
+  let net ← match baseline with
+    | some ppsDelay =>
+      -- NB: the code passes the *client* aggregate delay for both sides
+      if shouldDelayedPacketPropAggDelay sq next.client next net.clientAgg then
+        net.pushAggregateDelay ppsDelay now next.client
+      else pure net
+    | none => pure net
+  if !next.containsPadding then
+    let reported := max (next.time + networkDelay) now
+    pure (sq.pushSim ⟨.tunnelRecv, reported, !next.client, false, false, false⟩, net)
+  else
+    let reported := next.time + networkDelay
+    pure (sq.pushSim ⟨.tunnelRecv, reported, !next.client, true, false, false⟩, net)
+
 /-- `sim_network_stack(next, sq, state, recipient, network, current_time)`; of `state` only the
     `blocking_bypassable` flag is read, of `recipient` only the (zero) reporting delay.
     Returns the network-activity flag. -/
@@ -169,44 +215,8 @@ def simNetworkStack (next : SimEvent) (sq : SimQueue) (stateBypassable : Bool) (
   match next.event with
   | .normalSent =>
     .ok (false, sq.pushSim ⟨.tunnelSent, next.time, next.client, false, false, false⟩, net)
-  | .paddingSent _ =>
-    let queueUp : Except SimFault (Bool × SimQueue × Bottleneck) :=
-      .ok (false, sq.pushSim ⟨.tunnelSent, next.time, next.client, true, next.bypass, next.replace⟩, net)
-    if next.replace then
-      match sq.peekBlocking stateBypassable next.client with
-      | (some queued, qid) =>
-        if queued.client == next.client && queued.event == .tunnelSent && !queued.containsPadding then
-          if !next.bypass then
-            .ok (false, sq, { net with ghost := { net.ghost with replaced := net.ghost.replaced + 1 } })
-          else do
-            let r ← sq.popBlocking qid stateBypassable next.client (net.agg next.client)
-            match r with
-            | none => .error (.unwrapNone 4)
-            | some (entry, sq) =>
-              let entry := { entry with bypass := true, replace := false }
-              let net := { net with ghost := { net.ghost with replacedBypass := net.ghost.replacedBypass + 1 } }
-              let net ← match aggDelayOnPaddingBypassReplace sq next.client now entry (net.agg next.client) with
-                | some bd => net.pushAggregateDelay bd now next.client
-                | none => pure net
-              pure (false, sq.pushSim entry, net)
-        else queueUp
-      | (none, _) => queueUp
-    else queueUp
-  | .tunnelSent => do
-    let ((networkDelay, baseline), net) ← net.sample now next.client
-    let net ← match baseline with
-      | some ppsDelay =>
-        -- NB: the code passes the *client* aggregate delay for both sides
-        if shouldDelayedPacketPropAggDelay sq next.client next net.clientAgg then
-          net.pushAggregateDelay ppsDelay now next.client
-        else pure net
-      | none => pure net
-    if !next.containsPadding then
-      let reported := max (next.time + networkDelay) now
-      pure (true, sq.pushSim ⟨.tunnelRecv, reported, !next.client, false, false, false⟩, net)
-    else
-      let reported := next.time + networkDelay
-      pure (true, sq.pushSim ⟨.tunnelRecv, reported, !next.client, true, false, false⟩, net)
+  | .paddingSent _ => (netPaddingSent next sq stateBypassable net now).map fun x => (false, x.1, x.2)
+  | .tunnelSent => (netTunnelSent next sq net now).map fun x => (true, x.1, x.2)
   | .tunnelRecv =>
     if next.containsPadding then
       .ok (true, sq.pushSim ⟨.paddingRecv, next.time, next.client, true, false, false⟩, net)
